@@ -83,9 +83,13 @@ type model struct {
 	clientNet    []netip.Prefix
 	zones        []string
 	defaultedWKP bool // prefixes omitted / all refused → 64:ff9b::/96 by default
-	exclADef     bool // default list in force (field omitted)
-	exclA        []netip.Prefix
-	exclAAAA     []netip.Prefix
+	// inner: configured prefixes that lie inside another (shorter) configured
+	// prefix; innerAfter: those of them listed AFTER a prefix that covers them
+	inner      []refPrefix
+	innerAfter []refPrefix
+	exclADef   bool // default list in force (field omitted)
+	exclA      []netip.Prefix
+	exclAAAA   []netip.Prefix
 }
 
 func mustPrefixes(ss ...string) []netip.Prefix {
@@ -130,6 +134,21 @@ func newModel(c cfgSpec) *model {
 		// RFC 6147 §5.2 default when no usable prefix is configured
 		m.prefixes = []refPrefix{parseRefPrefix("64:ff9b::/96")}
 		m.defaultedWKP = true
+	}
+	for i, p := range m.prefixes {
+		covered, after := false, false
+		for j, q := range m.prefixes {
+			if i != j && q.Bits < p.Bits && q.contains(p.Addr) {
+				covered = true
+				after = after || j < i
+			}
+		}
+		if covered {
+			m.inner = append(m.inner, p)
+		}
+		if after {
+			m.innerAfter = append(m.innerAfter, p)
+		}
 	}
 	for _, s := range c.ClientNetworks {
 		m.clientNet = append(m.clientNet, netip.MustParsePrefix(s).Masked())
